@@ -8,52 +8,102 @@ Definition op_truth (listing : N -> bool -> list N) (o : op) : list N :=
   match o with OIter d r => listing d r | _ => [] end.
 
 Definition valid_op (o : op) : Prop :=
-  match o with OGetRange _ off len => 0 <= off /\ 0 < len | _ => True end.
+  match o with OGetRange _ off len => 0 <= off /\ 0 < len | OGet _ chunk => 0 < chunk | _ => True end.
 
 Definition res_of (x : outcome * cache) : result := fst (fst (fst x)).
 
-Lemma get_ok g w listing c hits name : cache_ok w listing c ->
-  res_of (get g w c hits name) = reference w (OGet name) [] /\ cache_ok w listing (snd (get g w c hits name)).
+(* the chunked getReader stores exactly the complete object, and only when it fits *)
+Lemma get_reader_none chunk maxsize : forall fuel rest, get_reader fuel rest chunk maxsize None = None.
 Proof.
-  intro Hc. unfold get, reference, res_of.
-  (* the part after a content miss *)
-  assert (HB : forall rest : outcome * cache,
-    rest = match fetch c hits (KExists name) with
-           | Some (VBool false) => ((RErr, [], []), c)
-           | _ => match find_obj w name with
-                  | None => ((RErr, [], [KExists name]), store c (KExists name) (VBool false))
-                  | Some o =>
-                      if blen o <=? c_maxsize g
-                      then ((RBytes o, [], [KExists name; KContent name]), store (store c (KExists name) (VBool true)) (KContent name) (VBytes o))
-                      else ((RBytes o, [], [KExists name]), store c (KExists name) (VBool true))
-                  end
-           end ->
-    fst (fst (fst rest)) = match find_obj w name with Some obj => RBytes obj | None => RErr end
-    /\ cache_ok w listing (snd rest)).
-  { intros rest ->.
-    assert (HC : fst (fst (fst (match find_obj w name with
-                  | None => ((RErr, [], [KExists name]), store c (KExists name) (VBool false))
-                  | Some o =>
-                      if blen o <=? c_maxsize g
-                      then ((RBytes o, @nil (Z * Z), [KExists name; KContent name]), store (store c (KExists name) (VBool true)) (KContent name) (VBytes o))
-                      else ((RBytes o, [], [KExists name]), store c (KExists name) (VBool true))
-                  end))) = match find_obj w name with Some obj => RBytes obj | None => RErr end
-            /\ cache_ok w listing (snd (match find_obj w name with
-                  | None => ((RErr, @nil (Z * Z), [KExists name]), store c (KExists name) (VBool false))
-                  | Some o =>
-                      if blen o <=? c_maxsize g
-                      then ((RBytes o, [], [KExists name; KContent name]), store (store c (KExists name) (VBool true)) (KContent name) (VBytes o))
-                      else ((RBytes o, [], [KExists name]), store c (KExists name) (VBool true))
-                  end))).
-    { destruct (find_obj w name) as [o|] eqn:Eo.
-      - destruct (blen o <=? c_maxsize g); simpl; (split; [reflexivity|]).
-        + apply cache_ok_store; [apply cache_ok_store; [exact Hc|simpl; rewrite Eo; reflexivity]|simpl; exists o; auto].
-        + apply cache_ok_store; [exact Hc|simpl; rewrite Eo; reflexivity].
-      - simpl. split; [reflexivity|]. apply cache_ok_store; [exact Hc|simpl; rewrite Eo; reflexivity]. }
-    destruct (fetch c hits (KExists name)) as [[b|z|[|]|l]|] eqn:E; try exact HC.
+  induction fuel as [|f IH]; intro rest; [reflexivity|]. cbn [get_reader].
+  destruct (blen rest <=? 0); [reflexivity|apply IH].
+Qed.
+
+Lemma get_reader_ok chunk maxsize : 0 < chunk -> forall fuel rest b, (length rest < fuel)%nat ->
+  blen b <= maxsize ->
+  get_reader fuel rest chunk maxsize (Some b) = (if blen b + blen rest <=? maxsize then Some (b ++ rest) else None).
+Proof.
+  intro Hc. induction fuel as [|f IH]; intros rest b Hf Hb; [lia|].
+  cbn [get_reader]. destruct (blen rest <=? 0) eqn:E0.
+  - apply Z.leb_le in E0. assert (rest = []) by (destruct rest; [reflexivity|unfold blen in E0; simpl in E0; lia]).
+    subst rest. unfold blen at 2. simpl. rewrite Z.add_0_r, app_nil_r.
+    replace (blen b <=? maxsize) with true by (symmetry; apply Z.leb_le; exact Hb). reflexivity.
+  - apply Z.leb_gt in E0.
+    set (n := Z.min chunk (blen rest)). assert (Hn : 0 < n <= blen rest) by (unfold n; lia).
+    assert (Hbl : blen (slice rest n (blen rest)) = blen rest - n) by (apply slice_length; lia).
+    assert (Hlen : (length (slice rest n (blen rest)) < f)%nat) by (unfold blen in *; lia).
+    assert (Hsplit : slice rest 0 n ++ slice rest n (blen rest) = rest).
+    { rewrite slice_app by lia. apply slice_full. }
+    assert (Hb0 : blen (slice rest 0 n) = n) by (rewrite slice_length; lia).
+    assert (Hbb : blen (b ++ slice rest 0 n) = blen b + n).
+    { unfold blen at 1. rewrite app_length, Nat2Z.inj_add. fold (blen b). fold (blen (slice rest 0 n)). lia. }
+    destruct (blen b + n <=? maxsize) eqn:E1.
+    + apply Z.leb_le in E1.
+      assert (Hle : blen (b ++ slice rest 0 n) <= maxsize) by lia.
+      pose proof (IH (slice rest n (blen rest)) (b ++ slice rest 0 n) Hlen Hle) as Hi.
+      etransitivity; [exact Hi|].
+      rewrite Hbb, Hbl. replace (blen b + n + (blen rest - n)) with (blen b + blen rest) by lia.
+      rewrite <- app_assoc, Hsplit. reflexivity.
+    + apply Z.leb_gt in E1.
+      replace (blen b + blen rest <=? maxsize) with false by (symmetry; apply Z.leb_gt; lia).
+      apply get_reader_none.
+Qed.
+
+(* without any assumption on maxSize: what is stored is never a proper prefix *)
+Lemma get_reader_whole chunk maxsize : 0 < chunk -> forall fuel rest b, (length rest < fuel)%nat ->
+  get_reader fuel rest chunk maxsize (Some b) = None \/ get_reader fuel rest chunk maxsize (Some b) = Some (b ++ rest).
+Proof.
+  intro Hc. induction fuel as [|f IH]; intros rest b Hf; [lia|].
+  cbn [get_reader]. destruct (blen rest <=? 0) eqn:E0.
+  - apply Z.leb_le in E0. assert (rest = []) by (destruct rest; [reflexivity|unfold blen in E0; simpl in E0; lia]).
+    subst rest. rewrite app_nil_r. right. reflexivity.
+  - apply Z.leb_gt in E0.
+    set (n := Z.min chunk (blen rest)). assert (Hn : 0 < n <= blen rest) by (unfold n; lia).
+    assert (Hbl : blen (slice rest n (blen rest)) = blen rest - n) by (apply slice_length; lia).
+    assert (Hlen : (length (slice rest n (blen rest)) < f)%nat) by (unfold blen in *; lia).
+    assert (Hsplit : slice rest 0 n ++ slice rest n (blen rest) = rest).
+    { rewrite slice_app by lia. apply slice_full. }
+    destruct (blen b + n <=? maxsize).
+    + destruct (IH (slice rest n (blen rest)) (b ++ slice rest 0 n) Hlen) as [I|I]; [left; exact I|].
+      right. etransitivity; [exact I|]. rewrite <- app_assoc, Hsplit. reflexivity.
+    + left. apply get_reader_none.
+Qed.
+
+Lemma get_ok g w listing c hits name chunk : 0 < chunk -> cache_ok w listing c ->
+  res_of (get g w c hits name chunk) = reference w (OGet name chunk) [] /\ cache_ok w listing (snd (get g w c hits name chunk)).
+Proof.
+  intros Hchunk Hc. unfold get, reference, res_of.
+  set (tail := match find_obj w name with
+               | None => ((RErr, @nil (Z * Z), [KExists name]), store c (KExists name) (VBool false))
+               | Some o =>
+                   match get_reader (S (length o)) o chunk (c_maxsize g) (Some []) with
+                   | Some stored => ((RBytes o, [], [KExists name; KContent name]), store (store c (KExists name) (VBool true)) (KContent name) (VBytes stored))
+                   | None => ((RBytes o, [], [KExists name]), store c (KExists name) (VBool true))
+                   end
+               end).
+  assert (HC : fst (fst (fst tail)) = match find_obj w name with Some obj => RBytes obj | None => RErr end
+               /\ cache_ok w listing (snd tail)).
+  { unfold tail. destruct (find_obj w name) as [o|] eqn:Eo.
+    - match goal with |- context [get_reader ?a ?b ?c ?d ?e] => set (R := get_reader a b c d e) in * end.
+      assert (G : R = None \/ R = Some o).
+      { subst R. exact (get_reader_whole chunk (c_maxsize g) Hchunk (S (length o)) o [] ltac:(lia)). }
+      destruct G as [G1|G1]; rewrite G1; simpl; (split; [reflexivity|]).
+      + apply cache_ok_store; [exact Hc|simpl; rewrite Eo; reflexivity].
+      + apply cache_ok_store; [apply cache_ok_store; [exact Hc|simpl; rewrite Eo; reflexivity]|simpl; exists o; auto].
+    - simpl. split; [reflexivity|]. apply cache_ok_store; [exact Hc|simpl; rewrite Eo; reflexivity]. }
+  assert (HB : fst (fst (fst (match fetch c hits (KExists name) with
+                               | Some (VBool false) => ((RErr, @nil (Z * Z), @nil key), c)
+                               | _ => tail
+                               end))) = match find_obj w name with Some obj => RBytes obj | None => RErr end
+               /\ cache_ok w listing (snd (match fetch c hits (KExists name) with
+                               | Some (VBool false) => ((RErr, @nil (Z * Z), @nil key), c)
+                               | _ => tail
+                               end))).
+  { destruct (fetch c hits (KExists name)) as [[b|z|[|]|l]|] eqn:E; try exact HC.
     apply fetch_some in E. apply Hc in E. simpl in E.
     destruct (find_obj w name); [discriminate|]. split; [reflexivity|exact Hc]. }
-  destruct (fetch c hits (KContent name)) as [[[|x b]|z|b|l]|] eqn:E; try (apply HB; reflexivity).
+  fold tail.
+  destruct (fetch c hits (KContent name)) as [[[|x b]|z|b|l]|] eqn:E; try exact HB.
   apply fetch_some in E. apply Hc in E. simpl in E. destruct E as (o & Ho & Hv). inversion Hv; subst.
   rewrite Ho. simpl. split; [congruence|exact Hc].
 Qed.
@@ -90,7 +140,7 @@ Lemma step_ok g w listing c o hits :
   res_of (step g w c o hits (op_truth listing o)) = reference w o (op_truth listing o)
   /\ cache_ok w listing (snd (step g w c o hits (op_truth listing o))).
 Proof.
-  intros HS Hv Hc. destruct o as [n off len|n|n|n|d r]; simpl step; simpl op_truth.
+  intros HS Hv Hc. destruct o as [n off len|n chunk|n|n|d r]; simpl step; simpl op_truth.
   - destruct Hv as [H1 H2]. apply get_range_ok; assumption.
   - apply get_ok; assumption.
   - apply exists_ok; assumption.
@@ -158,7 +208,7 @@ Qed.
 
 Lemma reference_modelled w o truth : valid_op o -> reference w o truth <> RUnmodelled.
 Proof.
-  destruct o as [n off len|n|n|n|d r]; simpl; intro Hv; try (destruct (find_obj w n); discriminate); try discriminate.
+  destruct o as [n off len|n chunk|n|n|d r]; simpl; intro Hv; try (destruct (find_obj w n); discriminate); try discriminate.
   destruct Hv as [H1 H2].
   replace ((off <? 0) || (len <=? 0)) with false.
   2:{ symmetry. apply orb_false_iff. split; [apply Z.ltb_ge; lia | apply Z.leb_gt; lia]. }
